@@ -898,7 +898,7 @@ pub mod verif {
         return Ok(mml_to_string(&mathml));
     }
 
-    /// parse, trim and run one stage of canonicalization ("parse_rows": the mrow parser alone; "clean": validation and clean-up alone; "trim": nothing)
+    /// parse, trim and run one stage of canonicalization ("parse_rows": the mrow parser alone; "clean": validation and clean-up alone; "assure": validation alone; "trim": nothing)
     pub fn canonicalize_stage(mathml_str: &str, stage: &str) -> Result<String> {
         crate::speech::SPEECH_RULES.with(|rules| rules.borrow_mut().read_files())?;
         let package = match parser::parse(mathml_str) {
@@ -910,6 +910,7 @@ pub mod verif {
         let mathml = match stage {
             "parse_rows" => crate::canonicalize::verif::parse_rows(mathml)?,
             "clean" => crate::canonicalize::verif::clean_only(mathml)?,
+            "assure" => { crate::canonicalize::verif::assure(mathml)?; mathml },
             "trim" => mathml,
             _ => bail!("unknown stage {}", stage),
         };
